@@ -99,6 +99,11 @@ impl OutstationTask {
 
     /// run the outstation task asynchronously until a `SessionError` occurs
     pub(crate) async fn run(&mut self, io: &mut PhysLayer) -> RunError {
+        // the future returned by a previous call may have been dropped before it completed,
+        // e.g. when a server replaces a running session with a newly accepted connection
+        self.reader.reset();
+        self.writer.reset();
+
         let res = self
             .session
             .run(io, &mut self.reader, &mut self.writer, &mut self.database)
